@@ -2,7 +2,7 @@
 // FIX4.2 unit-test schema (libutest.so), a real ClientConnection/FIXWriter over a loopback TCP socket pair (the bytes are read back
 // from the accepted peer socket), real messages and the real encoder.  Public API only: Session::send (both overloads), send_batch,
 // handle_resend_request; the persister is a recording Persister subclass (C16/C17) or the real MemoryPersister (C18).
-// usage: sessb_replay send  n r always persist op j destroy custom noinc  {kind pre34 pre43 orig}*j
+// usage: sessb_replay send  n r always persist op j destroy custom noinc  {kind pre34 pre43 orig}*j [P<0/1 per message put>] [C<0/1 per control put>]
 //        sessb_replay resend n B E persist  has1 has2 ... hasK
 //        sessb_replay reject n r [fail kind]   (inbound message, by default with a bad checksum, through Session::process)
 // exit code: bit0 = C16 oracle violated, bit1 = C17 oracle violated, bit2 = C18 oracle violated; 64 = driver problem
@@ -21,8 +21,14 @@ using namespace FIX8;
 struct RecPersister : Persister
 {
    std::vector<std::pair<unsigned, f8String>> puts; unsigned cs = 0, cr = 0, cn = 0;
-   bool put(const unsigned seqnum, const f8String& what) override { puts.push_back({seqnum, what}); return true; }
-   bool put(const unsigned s, const unsigned r) override { cs = s; cr = r; ++cn; return true; }
+   // scripted results (contract of Persister::put: may refuse, e.g. occupied number): k-th call answers script[k], default accept
+   std::string pscript, cscript; unsigned att_s = 0, att_r = 0, att_n = 0; bool att_ok = true;
+   bool put(const unsigned seqnum, const f8String& what) override
+   { const bool ok(puts.size() >= pscript.size() || pscript[puts.size()] != '0'); puts.push_back({seqnum, what}); return ok; }
+   bool put(const unsigned s, const unsigned r) override
+   { const bool ok(att_n >= cscript.size() || cscript[att_n] != '0'); att_s = s; att_r = r; att_ok = ok; ++att_n; if (ok) { cs = s; cr = r; ++cn; } return ok; }
+   bool ctl_matches(unsigned ns, unsigned nr) const
+   { return att_n == 0 ? (cn && cs == ns && cr == nr) : (att_s == ns && att_r == nr && (!att_ok || (cs == ns && cr == nr))); }
    bool get(const unsigned seqnum, f8String& to) const override { return false; }
    unsigned get(const unsigned, const unsigned, Session&, bool (Session::*)(const Session::SequencePair&, Session::RetransmissionContext&)) const override { return 0; }
    unsigned get_last_seqnum(unsigned& to) const override { return to = 0; }
@@ -88,7 +94,8 @@ static int run_send(int argc, char **argv)
    unsigned n(std::stoul(argv[2])), r(std::stoul(argv[3])); bool always(atoi(argv[4])), persist(atoi(argv[5])); int op(atoi(argv[6])), j(atoi(argv[7])); bool destroy(atoi(argv[8]));
    unsigned custom(std::stoul(argv[9])); bool noinc(atoi(argv[10]));
    if (argc < 11 + 4 * j) return 64;
-   Wire w; RecPersister per; SessionID sid(f8String("FIX.4.2"), f8String("S"), f8String("T"));
+   Wire w; RecPersister per;
+   for (int a(11 + 4 * j); a < argc; ++a) { if (argv[a][0] == 'P') per.pscript = argv[a] + 1; else if (argv[a][0] == 'C') per.cscript = argv[a] + 1; } SessionID sid(f8String("FIX.4.2"), f8String("S"), f8String("T"));
    RSession *ss(new RSession(UTEST::ctx(), sid, persist ? &per : nullptr));
    ClientConnection *conn(new ClientConnection(w.cli, w.addr, *ss, 10, pm_thread));
    ss->prime(n, r, always, conn);
@@ -107,10 +114,10 @@ static int run_send(int argc, char **argv)
    else okret = ss->send_batch(msgs, destroy) == size_t(j);
    const std::string wire(w.drain()); const std::vector<std::string> out(split_msgs(wire));
    int bad(0); std::ostringstream why;
-   why << "sent=" << out.size() << " next_send=" << ss->ns() << " next_recv=" << ss->nr() << " ctl=(" << per.cs << "," << per.cr << ") puts=" << per.puts.size();
+   why << "ret=" << okret << " sent=" << out.size() << " next_send=" << ss->ns() << " next_recv=" << ss->nr() << " ctl=(" << per.cs << "," << per.cr << ") puts=" << per.puts.size();
    for (auto& m : out) why << " wire[34=" << utag(m, "34") << ",35=" << [&]{ std::string v; tag(m, "35", v); return v; }() << ",len=" << m.size() << "]";
    for (auto& p : per.puts) why << " put[" << p.first << ",len=" << p.second.size() << "]";
-   if (int(out.size()) != j || !okret) { std::cout << "driver: " << out.size() << " messages on the wire for " << j << " sent; " << why.str() << std::endl; return 64; }
+   if (int(out.size()) != j) { std::cout << "driver: " << out.size() << " messages on the wire for " << j << " sent; " << why.str() << std::endl; return 64; }
    // ---- C16 oracle
    unsigned run(n);
    for (int i(0); i < j; ++i)
@@ -122,7 +129,7 @@ static int run_send(int argc, char **argv)
       if (!flagged && !gapfill && !ovr && !(utag(out[i], "34") < ss->ns())) bad |= 1;       // number of an unflagged message handed out again
    }
    if (ss->ns() != run || ss->nr() != r) bad |= 1;
-   if (persist && (per.cs != ss->ns() || per.cr != ss->nr())) bad |= 1;
+   if (persist && !per.ctl_matches(ss->ns(), ss->nr())) bad |= 1;
    // ---- C17 oracle
    size_t k(0);
    for (int i(0); i < j; ++i)
